@@ -1253,6 +1253,8 @@ impl World {
             let mut okids: BTreeSet<(String, String, Vec<String>)>
                 = BTreeSet::new();
             let mut stray: Vec<String> = Vec::new();
+            // route origin objects aggregated per origin AS (AS<n>.roa)
+            let mut agg = false;
             let handle = ca_handle(&name);
             let files = match repo.get_publisher_details(handle.convert()) {
                 Ok(details) => {
@@ -1315,6 +1317,9 @@ impl World {
                     }
                 }
                 else if fname.ends_with(".roa") {
+                    if fname.starts_with("AS") {
+                        agg = true;
+                    }
                     match rpki::repository::roa::Roa::decode(data, true) {
                         Ok(roa) => {
                             let aki = roa.cert().authority_key_identifier()
@@ -1403,7 +1408,7 @@ impl World {
             }
             res.insert(name.clone(), json!({
                 "cur": cur, "new": new, "old": old,
-                "vrps": vrps,
+                "vrps": vrps, "agg": agg,
                 "kids": kids.into_iter().map(|k| {
                     json!([k.0, k.1, k.2])
                 }).collect::<Vec<_>>(),
@@ -1658,7 +1663,7 @@ pub fn apply_action(w: &mut World, action: &Value) -> Result<Value, String> {
             let done = w.pump(300)?;
             Ok(json!({"tasks": done}))
         }
-        "Republish" => {
+        "Republish" | "RepublishByMargin" => {
             w.run_task(Task::RepublishIfNeeded)?;
             Ok(json!("ok"))
         }
@@ -1713,8 +1718,8 @@ pub fn apply_action(w: &mut World, action: &Value) -> Result<Value, String> {
             Ok(json!("ok"))
         }
         "Settled" | "NotSettled" | "Mark" | "ExpectSame" | "ExpectReissued"
-        | "ExpectRenewed" => Ok(json!("ok")),
-        "Restart" | "RestartDue" | "RestartNormal" => {
+        | "ExpectRenewed" | "ExpectByMargin" => Ok(json!("ok")),
+        "Restart" | "RestartDue" | "RestartNormal" | "RestartMargin" => {
             // a restart, possibly with other timing values: margins larger
             // than the lifetimes make everything due at the next
             // maintenance run, which stands in for the passing of time
